@@ -216,7 +216,7 @@ func (c *Ctx) c12Scripts() error {
 				fmt.Fprintf(&sb, "func (s *S) M%d(k int) int { return k + %d }\n", i, i)
 			}
 		}
-		sb.WriteString("type D S\n") // a type defined from S finds S's methods
+		sb.WriteString("type D S\n")                                                               // a type defined from S finds S's methods
 		sb.WriteString("func pick(s *S, tag int) *S {\n\tprintln(\"pick\", tag)\n\treturn s\n}\n") // an instance reached through a call with a visible effect
 		sb.WriteString("func run() {\na := &S{}\nb := &S{}\nc := a\n_ = c\n")
 		// mirrors: instances a (aliased by c) and b
